@@ -74,7 +74,7 @@ def explore(make, d=2, max_depth=None, unpruned_depth=0, max_states=200000, max_
             res.violations.append((list(hist), msg))
         return s, msg
 
-    def suffix_check(hist, depth):
+    def suffix_check(hist, depth, level=0):
         """All op sequences of length <= depth from hist (ops re-read at every step)."""
         if depth == 0:
             return
@@ -82,7 +82,7 @@ def explore(make, d=2, max_depth=None, unpruned_depth=0, max_states=200000, max_
         if msg:
             s.close()
             return
-        ops = s.ops()
+        ops = s.ops_small() if (level > 0 and hasattr(s, "ops_small")) else s.ops()
         s.close()
         for op in ops:
             h2 = hist + (op,)
@@ -93,7 +93,7 @@ def explore(make, d=2, max_depth=None, unpruned_depth=0, max_states=200000, max_
                     return
                 continue
             if depth > 1:
-                suffix_check(h2, depth - 1)
+                suffix_check(h2, depth - 1, level + 1)
 
     while frontier and len(res.violations) < max_viol:
         hist = frontier.popleft()
